@@ -255,6 +255,37 @@ def run_unsized(chk, spec):
 		if M.first_diff(list(o.value._underlying), exp):
 			chk.fail("element i is exactly what Python computes for the i-th operands in written order", f"arith/element-mismatch/unsized-{spec['form']}", f"{spec!r}: {short(list(o.value._underlying), 120)} vs {short(exp, 120)}")
 
+def run_table_unary(chk, spec):
+	"""-t, +t, abs(t): the unary operation applied column by column - same shape, every result column what the bare column gives, names kept"""
+	import operator, warnings
+	n = spec["n"]
+	cols = {"k": [(-1) ** i * (i + 1) for i in range(n)], "x": [(-1) ** (i + 1) * (i + 0.5) for i in range(n)], "z": [complex(i, -i) for i in range(n)], "b": [i % 2 == 0 for i in range(n)]}
+	if spec["none"] and n > 1:
+		cols["k"][1] = None
+	use = list(spec["use"])
+	t = Table({c: list(cols[c]) for c in use})
+	op = {"neg": operator.neg, "pos": operator.pos, "abs": operator.abs}[spec["opname"]]
+	with warnings.catch_warnings():
+		warnings.simplefilter("ignore")
+		o = call(op, t)
+		refs = [call(op, t[c]) for c in use]
+	chk.judged("arith-value", ("table-unary", spec["opname"], tuple(use), n, spec["none"]))
+	if any(not r.ok for r in refs):
+		return
+	if not o.ok:
+		chk.fail("table arithmetic is the vector operation applied column by column", f"table-arith/unary-raises/{spec['opname']}/{type(o.exc).__name__}", f"{spec!r}: {o!r}")
+		return
+	r = o.value
+	if not isinstance(r, Table) or len(r.cols()) != len(use) or len(r) != n:
+		chk.fail("table arithmetic is the vector operation applied column by column (shape preserved)", f"table-arith/unary-shape/{spec['opname']}", f"{spec!r}: result shape {getattr(r, 'shape', None)!r} for a {n}x{len(use)} table: {short(r, 160)}")
+		return
+	for c, got, ref in zip(use, r.cols(), refs):
+		if M.first_diff(list(got._underlying), list(ref.value._underlying)):
+			chk.fail("table arithmetic is the vector operation applied column by column", f"table-arith/unary-differs-from-column-operation/{spec['opname']}/{c}", f"{spec!r}: column {c!r}: {short(list(got._underlying), 100)} vs {short(list(ref.value._underlying), 100)}")
+			return
+	if r.column_names() != use:
+		chk.fail("a unary operation on a table keeps every column name", f"table-arith/unary-names/{spec['opname']}", f"{spec!r}: names {r.column_names()!r}", prop="C18")
+
 
 def run_table_arith(chk, spec):
 	"""table (op) scalar / table (op) table equals the vector operation per column"""
@@ -467,7 +498,7 @@ def run_helper(chk, spec):
 			f"Vector({short(vals, 120)}).{name}({sep!r}): serif {short(got, 160)} vs documented {short(exp, 160)}: {d}")
 
 
-RUNNERS = {"table_columnwise": run_table_columnwise, "unsized": run_unsized, "symbolic": run_symbolic, "identity": run_identity, "row_arith": run_row_arith, "helper": run_helper, "arith": run_arith, "table_arith": run_table_arith, "method": run_method, "date_days": run_date_days, "recompute": recompute.runner("C05")}
+RUNNERS = {"table_unary": run_table_unary, "table_columnwise": run_table_columnwise, "unsized": run_unsized, "symbolic": run_symbolic, "identity": run_identity, "row_arith": run_row_arith, "helper": run_helper, "arith": run_arith, "table_arith": run_table_arith, "method": run_method, "date_days": run_date_days, "recompute": recompute.runner("C05")}
 
 PAIRS = [("int", "int"), ("int", "float"), ("float", "int"), ("bool", "int"), ("int", "complex"), ("float", "float"), ("str", "str"),
 	("str", "int"), ("date", "timedelta"), ("datetime", "timedelta"), ("timedelta", "timedelta"), ("timedelta", "int"), ("list", "list"),
@@ -520,6 +551,11 @@ def run(chk):
 	rng = chk.rng
 	for spec in product_specs(chk):
 		chk.case("arith", spec, "arith-" + spec["form"])
+	for use in (["k"], ["k", "x"], ["x", "k", "z"], ["k", "b"], ["k", "k" if False else "x", "z", "b"]):
+		for opname in ("neg", "pos", "abs"):
+			for n in (1, 2, 3, 5):
+				for none in (False, True):
+					chk.case("table_unary", {"use": use, "opname": opname, "n": n, "none": none}, "table-unary")
 	for use in (["d"], ["d", "k"], ["k", "d", "x"], ["k", "x"], ["s", "d"]):
 		for other in ("int", "intvec", "intlist", "table"):
 			for opname in ("add", "sub", "mul"):
